@@ -674,6 +674,170 @@ func bucket(n int) string {
 }
 
 // ---------------------------------------------------------------------------------------------
+// read faults: a valid zone whose reader (or one of whose include files) fails after a generated
+// number of octets with a generated kind of error
+
+type readFaultCase struct {
+	Zone       zm.Zone
+	OriginText string
+	Files      map[string]string
+	Spans      map[string][]zm.LineSpan
+	File       string // the file whose reader fails
+	At         int    // after this many octets
+	Kind       int
+	ByteReader bool
+}
+
+func genReadFault(t *rapid.T) readFaultCase {
+	o, ro := zm.GenOpts{MaxItems: 8, HostileLabels: true}, zm.RenderOpts{BlankBeforeComment: true}
+	z := zm.GenZone(t, o)
+	den, err := zm.Denote(z)
+	if err != nil {
+		t.Fatalf("generator: %v", err)
+	}
+	r, err := zm.Render(t, z, den, ro)
+	if err != nil {
+		t.Fatalf("renderer: %v", err)
+	}
+	c := readFaultCase{Zone: *z, OriginText: zm.OriginText(t, z), Files: r.Files, Spans: r.Spans}
+	names := []string{z.FileName}
+	for _, f := range z.FileNames()[1:] {
+		if den.Facts[f] != nil {
+			names = append(names, f)
+		}
+	}
+	c.File = names[0]
+	if len(names) > 1 && rapid.IntRange(0, 2).Draw(t, "ff") == 0 {
+		c.File = names[rapid.IntRange(1, len(names)-1).Draw(t, "ffi")]
+	}
+	txt := c.Files[c.File]
+	// offsets: anywhere, with a bias to line boundaries (just before / just after a newline)
+	c.At = rapid.IntRange(0, len(txt)).Draw(t, "at")
+	if rapid.IntRange(0, 2).Draw(t, "atnl") == 0 {
+		var nl []int
+		for i := 0; i < len(txt); i++ {
+			if txt[i] == '\n' {
+				nl = append(nl, i, i+1)
+			}
+		}
+		if len(nl) > 0 {
+			c.At = nl[rapid.IntRange(0, len(nl)-1).Draw(t, "nli")]
+		}
+	}
+	c.Kind = rapid.IntRange(0, len(faultKindNames)-1).Draw(t, "kind")
+	c.ByteReader = rapid.Bool().Draw(t, "br")
+	if pbt.Known(kGenReadErr) {
+		// known finding: a failure inside the logical line of a $GENERATE; the cut moves to the
+		// start of that line
+		if at, moved := avoidGenerateLine(z.FileItems(c.File), c.Spans[c.File], txt, c.At); moved {
+			pbt.Excluded(kGenReadErr)
+			c.At = at
+		}
+	}
+	return c
+}
+
+// kGenReadErr: a reader failure inside a $GENERATE line does not stop the directive.
+const kGenReadErr = "generate-read-error"
+
+// avoidGenerateLine moves an offset that lies inside the logical line of a $GENERATE item (after
+// its first octet, up to and including its newline) to the start of that line.
+func avoidGenerateLine(items []zm.Item, spans []zm.LineSpan, txt string, at int) (int, bool) {
+	starts := []int{0}
+	for i := 0; i < len(txt); i++ {
+		if txt[i] == '\n' {
+			starts = append(starts, i+1)
+		}
+	}
+	for j, it := range items {
+		if it.Kind != zm.KGenerate || j >= len(spans) || spans[j].First < 1 || spans[j].First > len(starts) {
+			continue
+		}
+		from := starts[spans[j].First-1]
+		to := len(txt)
+		if spans[j].Last < len(starts) {
+			to = starts[spans[j].Last] // first octet of the next line
+		}
+		if at > from && at < to {
+			return from, true
+		}
+	}
+	return at, false
+}
+
+func checkReadFault(c readFaultCase) error {
+	den, err := zm.Denote(&c.Zone)
+	if err != nil || den.Err != "" {
+		pbt.Note(nil, false, "invalid-model")
+		return nil
+	}
+	items := c.Zone.FileItems(c.File)
+	facts := den.Facts[c.File]
+	spans := c.Spans[c.File]
+	txt, ok := c.Files[c.File]
+	if !ok || facts == nil || len(spans) != len(items) || c.At < 0 || c.At > len(txt) || c.Kind < 0 || c.Kind >= len(faultKindNames) {
+		pbt.Note(nil, false, "invalid-model")
+		return nil
+	}
+	// offset of the newline that ends physical line k (1-based); len(txt) when there is none
+	var lineEnd []int
+	for i := 0; i < len(txt); i++ {
+		if txt[i] == '\n' {
+			lineEnd = append(lineEnd, i)
+		}
+	}
+	endOf := func(line int) int {
+		if line-1 < len(lineEnd) {
+			return lineEnd[line-1]
+		}
+		return len(txt)
+	}
+	// items whose terminating newline was delivered before the failure are complete
+	upper := -1
+	complete := 0
+	for j := range items {
+		if len(facts[j]) == 0 {
+			continue
+		}
+		if upper < 0 {
+			upper = facts[j][0].RecsBefore
+		}
+		if endOf(spans[j].Last) < c.At {
+			upper = facts[j][0].RecsAfter
+			complete++
+		}
+	}
+	if upper < 0 {
+		pbt.Note(nil, false, "empty-file")
+		return nil
+	}
+	cfg := parserCfg{File: c.Zone.FileName, Origin: c.OriginText, HasDefTTL: c.Zone.HasDefTTL, DefTTL: c.Zone.DefTTL, Allowed: true, UseFS: true,
+		FaultFile: c.File, FaultAt: c.At, FaultKind: c.Kind, ByteReader: c.ByteReader}
+	out, viol := runParser(c.Files, cfg, nil)
+	boundary := c.At == 0 || txt[c.At-1] == '\n'
+	pbt.Note(caseKey(c.Files, cfg), upper > 0 || complete > 0, "fault-kind:"+faultKindNames[c.Kind], fmt.Sprintf("fault-in-include=%v", c.File != c.Zone.FileName),
+		fmt.Sprintf("fault-at-line-boundary=%v", boundary), fmt.Sprintf("records-before=%s", bucket(upper)), fmt.Sprintf("byte-reader=%v", c.ByteReader))
+	ctx := func() string {
+		return fmt.Sprintf("reading %s fails after %d of %d octets with %q (%s); complete items before: %d\n%s", c.File, c.At, len(txt), faultErr(c.Kind), faultKindNames[c.Kind], complete, show(c.Files, cfg))
+	}
+	if viol != nil {
+		return pbt.Errf("%v\n%s", viol, ctx())
+	}
+	if out.Err == nil {
+		return pbt.Errf("the reader failed but Err() == nil (%d records returned)\n%s", out.N, ctx())
+	}
+	if out.N > upper {
+		return pbt.Errf("%d records returned, but only %d records come from lines that were read completely before the failure (error %v)\n%s", out.N, upper, out.Err, ctx())
+	}
+	if out.N <= keepRecords {
+		if err := zm.Compare(out.First, den.Recs[:out.N]); err != nil {
+			return pbt.Errf("the records returned before the failure are not a prefix of the fault-free records: %v\n%s", err, ctx())
+		}
+	}
+	return nil
+}
+
+// ---------------------------------------------------------------------------------------------
 // include gate, depth limit, nested generate, generate range limits (deterministic scenarios with
 // generated surroundings)
 
@@ -1068,6 +1232,18 @@ func init() {
 		}
 		return nil
 	})
+	pbt.Probe(kGenReadErr, func() error {
+		txt := "$GENERATE 1-3 h$ 300 IN A 10.0.0.$ ; comment\nz 300 IN A 10.0.0.9\n"
+		cfg := parserCfg{File: "g.db", Origin: "example.", FaultFile: "g.db", FaultAt: strings.Index(txt, ";"), FaultKind: 0}
+		out, viol := runParser(map[string]string{"g.db": txt}, cfg, nil)
+		if viol != nil {
+			return fmt.Errorf("%s", strings.SplitN(viol.Error(), "\n", 2)[0])
+		}
+		if out.N > 0 {
+			return fmt.Errorf("%d records were built from a $GENERATE line that was not read to its end", out.N)
+		}
+		return nil
+	})
 	pbt.Probe(kGenQuadratic, func() error {
 		files := map[string]string{"g.db": "$GENERATE 1-1 a TXT" + strings.Repeat(" a", 10000) + "\n"}
 		_, viol := runParser(files, parserCfg{File: "g.db", Origin: "example."}, nil)
@@ -1086,6 +1262,7 @@ func init() {
 	})
 	pbt.Register(pbt.Sub[hostileCase]{Name: "mutated", Weight: 10, Gen: genHostile, Check: checkHostile})
 	pbt.Register(pbt.Sub[faultCase]{Name: "fault-localisation", Weight: 5, Gen: genFault, Check: checkFault})
+	pbt.Register(pbt.Sub[readFaultCase]{Name: "read-fault", Weight: 4, Gen: genReadFault, Check: checkReadFault})
 	pbt.Register(pbt.Sub[gateCase]{Name: "gate", Weight: 0.2, Gen: genGate, Check: checkGate})
 	pbt.RegisterEnum(pbt.Enum[gateCase]{Name: "gate-table", Exhaustive: true, Each: eachGate, Check: checkGate})
 	pbt.RegisterEnum(pbt.Enum[typeFaultCase]{Name: "type-fault", Exhaustive: true, Each: eachTypeFault, Check: checkTypeFault})
